@@ -98,12 +98,17 @@ fn opts_for(prop: &str, variant: &str, rng: &mut Rng, tier: Tier) -> WsOpts {
     }
     match prop {
         "C02" => {
+            // fixtures whose function name differs from the fixture name (`@pytest.fixture(name="db") def db_impl(db)`)
+            o.file.alias = rng.chance(400);
             o.self_dep_per_mille = 450;
             o.helper_self_dep_per_mille = if rng.chance(600) { 500 } else { 0 };
         }
         "C05" => {
             o.same_file_dups = rng.chance(500);
             o.file.alias = false;
+        }
+        "C04" => {
+            o.file.alias = rng.chance(400);
         }
         "C16" => {
             o.dep_cycles = rng.chance(600);
